@@ -27,7 +27,10 @@ RULE = ("cases = (format, api in {load(stride,frame), load_frame, iterload(chunk
         "thorough: exhaustive for T<=8, chunk 0..9, stride 1..4, skip 0..T (atom subset and file configuration rotate with the case); "
         "quick: fixed witnesses + seeded sample; a case is non-trivial when stride>1 or skip>0 or an atom subset "
         "or a frame is given; distinct by hash of the case")
-TRUSTED = ["harness/impl/load_impl.py (writes the files, maps frames/atoms/time/cell to identifiers, forks per batch)",
+TRUSTED = ["translator in harness/props/C02.py (Python ast -> terms of coq/Load/Reflect.v for the pure-Python readers hdf5, netcdf, "
+           "mdcrd, xyz, lammpstrj, arc, gro and the load/iterload glue; the .pyx readers xtc, trr, dcd, dtr and load_pdb stay "
+           "hand-modelled and are tied by the correspondence only)",
+           "harness/impl/load_impl.py (writes the files, maps frames/atoms/time/cell to identifiers, forks per batch)",
            "generator and verdict logic harness/props/C02.py; model-vs-implementation comparison is vm_compute inside coqc",
            "byte-level I/O of PyTables, netCDF, xdrfile, dcdplugin, dtrplugin (frames are opaque identifiers)"]
 ASSUMPTIONS = ["files have 1 <= T < 100 frames, so XTC/TRR read() uses one read-ahead chunk",
@@ -362,6 +365,7 @@ def run_cases(ctx, cases, replaying=False):
         return s
     ctx.notes.setdefault("coverage_extra", {})["model_variant_matching_impl"] = {
         f: vgname(f, vg) for f, vg in explained.items()}
+    ctx.c02_explained = explained
     # 2. the property
     for ci, (c, r) in enumerate(zip(cases, outs)):
         if c.get("probe"):
@@ -428,6 +432,49 @@ def run_cases(ctx, cases, replaying=False):
                                "explained_by": VNAME[vg[0]] if vg else None})
 
 
+READER_OF_FMT = {"h5": "hdf5", "nc": "netcdf", "mdcrd": "mdcrd", "xyz": "xyz", "xyz.gz": "xyz", "lammpstrj": "lammpstrj",
+                 "arc": "arc", "gro": "gro"}
+FAM_CLASS = {"FArr true": "slice", "FNc": "slice", "FSeq": "seq", "FSeqNoSeek": "seq_noseek"}
+VARIANT_CLASS = {1: "slice", 2: "slice", 3: "seq", 10: "seq_noseek", SPEC: None}
+
+
+def cross_check_translator(ctx):
+    """the family the translated source is classified as (computed in coqc from Gen/LoadReaders.v) must be the
+    family whose model reproduces the implementation's behaviour in this run"""
+    explained = getattr(ctx, "c02_explained", None)
+    if not explained or not os.path.exists(os.path.join(os.path.dirname(os.path.dirname(os.path.dirname(os.path.abspath(__file__)))),
+                                                        "coq", "Gen", "LoadReaders.vo")):
+        return
+    keys = sorted(set(READER_OF_FMT.values()))
+    rc, out = ctx.coq_eval(["MD.Load.Model", "MD.Load.Reflect", "MD.Gen.LoadReaders"],
+                           "[%s]" % "; ".join("classify %s_reader" % k for k in keys))
+    if rc != 0:
+        ctx.log("cross-check skipped: Gen/LoadReaders does not evaluate")
+        return
+    txt = out[out.find("= ") + 2:]
+    fams = re.findall(r"Some \(?(FArr true|FArr false|FNc|FSeqNoSeek|FSeq)\)?|None", txt)
+    got = re.findall(r"(Some \(?(?:FArr true|FArr false|FNc|FSeqNoSeek|FSeq)\)?|None)", txt)
+    if len(got) != len(keys):
+        ctx.log("cross-check skipped: cannot parse %r" % txt[:200])
+        return
+    cls = {}
+    for k, g in zip(keys, got):
+        m = re.search(r"FArr true|FArr false|FNc|FSeqNoSeek|FSeq", g)
+        cls[k] = FAM_CLASS.get(m.group(0)) if m else None
+    report = {}
+    for fmt, key in READER_OF_FMT.items():
+        vg = explained.get(fmt)
+        if vg is None:
+            continue
+        beh = VARIANT_CLASS.get(vg[0], "as-found:%s" % VNAME.get(vg[0]))
+        report[fmt] = {"source_classified_as": cls[key], "behaves_as": beh}
+        if beh is not None and cls[key] is not None and beh != cls[key]:
+            ctx.break_("translator-vs-behaviour[%s]" % fmt,
+                       "the source of the %s reader translates to family class %s but the implementation behaves as %s"
+                       % (key, cls[key], beh))
+    ctx.notes.setdefault("coverage_extra", {})["translator_vs_behaviour"] = report
+
+
 def correspond(ctx):
     cases = build_cases(ctx)
     ctx.log("cases:", len(cases))
@@ -440,6 +487,10 @@ def correspond(ctx):
                                   "{1,3,4,10,13,20} x with/without unit cell) are NOT product axes: they rotate from case to case "
                                   "(all 48 combinations occur within any 48 consecutive cases).")
     run_cases(ctx, cases)
+    try:
+        cross_check_translator(ctx)
+    except Exception as e:  # noqa  (never let the extra check mask the verdict of the correspondence)
+        ctx.log("cross-check failed to run: %r" % e)
 
 
 def search(ctx, broken):
@@ -464,3 +515,746 @@ def search(ctx, broken):
 def replay(ctx, rec):
     c = rec["case"]
     run_cases(ctx, [c], replaying=True)
+
+
+# =================================================================================================
+# Translator (DESIGN.md 4.1, T3): small terms extracted with Python's ast from the pure-Python readers
+# and from the load / load_frame / iterload glue -> coq/Gen/LoadReaders.v, checked there by computation
+# against the checkers of coq/Load/Reflect.v (soundness of the checkers: coq/Load/ReflectProofs.v).
+# Fail closed: a construct outside the small grammar raises Outside -> that definition falls back to the
+# hand-maintained copy in coq/Load/Reference.v ("degraded": the correspondence alone ties the model);
+# a construct that IS understood but differs (n_frames no longer scaled by stride, range(stride) instead
+# of range(stride - 1), a moved position update, skip > 1, ...) yields a different term and the lemma
+# of Gen/LoadReaders.v no longer computes to true -> broken proof obligation.
+import ast
+import os
+import re
+
+from common import REPO
+
+EXTRA_TARGETS = ("Gen/LoadReaders.vo",)
+
+
+class Outside(Exception):
+    pass
+
+
+READERS = [  # key, file, class, per-frame method, loader function, kind, families accepted in Gen
+    ("hdf5", "mdtraj/formats/hdf5.py", "HDF5TrajectoryFile", None, "load_hdf5", "slice", ["FArr true", "FNc"]),
+    ("netcdf", "mdtraj/formats/netcdf.py", "NetCDFTrajectoryFile", None, "load_netcdf", "slice", ["FArr true", "FNc"]),
+    ("mdcrd", "mdtraj/formats/mdcrd.py", "MDCRDTrajectoryFile", "_read", "load_mdcrd", "loop", ["FSeq"]),
+    ("xyz", "mdtraj/formats/xyzfile.py", "XYZTrajectoryFile", "_read", "load_xyz", "loop", ["FSeq"]),
+    ("lammpstrj", "mdtraj/formats/lammpstrj.py", "LAMMPSTrajectoryFile", "_read", "load_lammpstrj", "loop", ["FSeq"]),
+    ("arc", "mdtraj/formats/arc.py", "ArcTrajectoryFile", "_read", "load_arc", "loop", ["FSeq", "FSeqNoSeek"]),
+    ("gro", "mdtraj/formats/gro.py", "GroTrajectoryFile", "_read_frame", "load_gro", "loop", ["FSeq", "FSeqNoSeek"]),
+]
+
+
+def _src(rel):
+    with open(os.path.join(REPO, rel)) as fh:
+        return fh.read()
+
+
+def _strip_doc(body):
+    if body and isinstance(body[0], ast.Expr) and isinstance(body[0].value, ast.Constant) and isinstance(body[0].value.value, str):
+        return body[1:]
+    return body
+
+
+def _method(tree, cls, name):
+    for n in tree.body:
+        if isinstance(n, ast.ClassDef) and n.name == cls:
+            for m in n.body:
+                if isinstance(m, ast.FunctionDef) and m.name == name:
+                    return m
+    raise Outside("%s.%s not found" % (cls, name))
+
+
+def _function(tree, name):
+    for n in tree.body:
+        if isinstance(n, ast.FunctionDef) and n.name == name:
+            return n
+    raise Outside("function %s not found" % name)
+
+
+def _dotted(n):
+    if isinstance(n, ast.Name):
+        return n.id
+    if isinstance(n, ast.Attribute):
+        b = _dotted(n.value)
+        return None if b is None else b + "." + n.attr
+    return None
+
+
+def _mentions(node, names):
+    for n in ast.walk(node):
+        d = _dotted(n) if isinstance(n, (ast.Name, ast.Attribute)) else None
+        if d is not None and d in names:
+            return True
+    return False
+
+
+# ---- expressions: tuples ('Vi',) ('Cst', k) ('Add', a, b) ...
+_RANK = {"Vi": 0, "Vn": 1, "Vs": 2, "VT": 4, "Cst": 5}
+
+
+def _rank(e):
+    return _RANK.get(e[0], 3)
+
+
+def _comm(op, a, b):
+    """commutative operators get their operands in one canonical order (stable for equal ranks)"""
+    return (op, a, b) if _rank(a) <= _rank(b) else (op, b, a)
+
+
+def tr_expr(n, env):
+    if isinstance(n, ast.Constant) and isinstance(n.value, int) and not isinstance(n.value, bool) and n.value >= 0:
+        return ("Cst", n.value)
+    d = _dotted(n) if isinstance(n, (ast.Name, ast.Attribute)) else None
+    if d is not None:
+        if d in env:
+            return env[d]
+        if d in ("self.n_frames",):
+            return ("VT",)
+        if isinstance(n, ast.Attribute) and n.attr in ("start", "stop", "step") and _dotted(n.value) in env.get("__slices__", {}):
+            a, b, c = env["__slices__"][_dotted(n.value)]
+            return {"start": a, "stop": b, "step": c}[n.attr]
+        raise Outside("unknown name %s in an arithmetic expression" % d)
+    if isinstance(n, ast.BinOp):
+        a, b = tr_expr(n.left, env), tr_expr(n.right, env)
+        if isinstance(n.op, ast.Add):
+            return _comm("Add", a, b)
+        if isinstance(n.op, ast.Mult):
+            return _comm("Mul", a, b)
+        if isinstance(n.op, ast.Sub):
+            return ("Sub", a, b)
+        raise Outside("operator %s" % type(n.op).__name__)
+    if isinstance(n, ast.Call):
+        fn = _dotted(n.func)
+        if fn == "min" and len(n.args) == 2 and not n.keywords:
+            return _comm("Min", tr_expr(n.args[0], env), tr_expr(n.args[1], env))
+        if fn == "int" and len(n.args) == 1:
+            return tr_expr(n.args[0], env)
+        if fn == "len" and len(n.args) == 1 and (_dotted(n.args[0]) or "").endswith(".coordinates"):
+            return ("VT",)
+        raise Outside("call %s in an arithmetic expression" % fn)
+    raise Outside("expression %s" % type(n).__name__)
+
+
+def pexpr(e):
+    if e[0] == "Cst":
+        return "(Cst %d)" % e[1]
+    if len(e) == 1:
+        return e[0]
+    return "(%s %s %s)" % (e[0], pexpr(e[1]), pexpr(e[2]))
+
+
+def _is_none_test(t, name):
+    return (isinstance(t, ast.Compare) and len(t.ops) == 1 and isinstance(t.ops[0], ast.Is) and _dotted(t.left) == name
+            and isinstance(t.comparators[0], ast.Constant) and t.comparators[0].value is None)
+
+
+def _is_notnone_test(t, name):
+    return (isinstance(t, ast.Compare) and len(t.ops) == 1 and isinstance(t.ops[0], ast.IsNot) and _dotted(t.left) == name
+            and isinstance(t.comparators[0], ast.Constant) and t.comparators[0].value is None)
+
+
+# ---- slice readers ---------------------------------------------------------------------------------
+FIELDS = ("coordinates", "time", "cell_lengths", "cell_angles")
+
+
+def _field_reads(stmt, env, out):
+    """record, for every data field indexed in this statement, the slice triple it is indexed with"""
+    slices = env["__slices__"]
+
+    def first_index(ix):
+        if isinstance(ix, ast.Tuple):
+            ix = ix.elts[0]
+        return _dotted(ix)
+    for n in ast.walk(stmt):
+        if isinstance(n, ast.Subscript):
+            base = n.value
+            name = None
+            if isinstance(base, ast.Subscript) and isinstance(base.slice, ast.Constant):
+                name = base.slice.value                      # self._handle.variables['time'][frame_slice]
+            sv = first_index(n.slice)
+            if name in FIELDS and sv is not None:
+                if sv not in slices:
+                    raise Outside("field %s indexed with %s" % (name, sv))
+                out[name] = slices[sv]
+        if isinstance(n, ast.Call) and _dotted(n.func) == "get_field" and n.args and isinstance(n.args[0], ast.Constant):
+            name = n.args[0].value
+            if name in FIELDS:
+                ix = n.args[1] if len(n.args) > 1 else next((k.value for k in n.keywords if k.arg == "slice"), None)
+                sv = first_index(ix) if ix is not None else None
+                if sv not in slices:
+                    raise Outside("field %s indexed with %s" % (name, sv))
+                out[name] = slices[sv]
+
+
+def tr_slice_read(fn):
+    env = {"n_frames": ("Vn",), "stride": ("Vs",), "self._frame_index": ("Vi",), "__slices__": {}}
+    tracked = {"n_frames", "stride", "self._frame_index"}
+    guard = None
+    fields = {}
+    for st in _strip_doc(fn.body):
+        if isinstance(st, ast.Return):
+            break
+        if isinstance(st, ast.FunctionDef):
+            continue
+        # if stride is not None: stride = int(stride)
+        if isinstance(st, ast.If) and _is_notnone_test(st.test, "stride") and not st.orelse and len(st.body) == 1 \
+                and isinstance(st.body[0], ast.Assign) and _dotted(st.body[0].targets[0]) == "stride" \
+                and isinstance(st.body[0].value, ast.Call) and _dotted(st.body[0].value.func) == "int":
+            continue
+        # if n_frames is None: n_frames = np.inf  [elif stride is not None: n_frames = n_frames * stride]
+        if isinstance(st, ast.If) and _is_none_test(st.test, "n_frames"):
+            b = st.body
+            if not (len(b) == 1 and isinstance(b[0], ast.Assign) and _dotted(b[0].targets[0]) == "n_frames"
+                    and _dotted(b[0].value) in ("np.inf", "numpy.inf", "math.inf")):
+                raise Outside("n_frames is None branch")
+            for o in st.orelse:
+                if isinstance(o, ast.If) and _is_notnone_test(o.test, "stride") and not o.orelse:
+                    for a in o.body:
+                        if not isinstance(a, ast.Pass):
+                            _assign(a, env, tracked)
+                elif not isinstance(o, ast.Pass):
+                    _assign(o, env, tracked)
+            continue
+        # early return guard
+        if isinstance(st, ast.If) and st.body and isinstance(st.body[0], ast.Return) and not st.orelse \
+                and _mentions(st.test, tracked | set(env["__slices__"]) | {k for k in env if not k.startswith("__")}):
+            if guard is not None:
+                raise Outside("two early returns")
+            t = st.test
+            if isinstance(t, ast.Compare) and len(t.ops) == 1 and isinstance(t.ops[0], ast.Eq) \
+                    and isinstance(t.comparators[0], ast.Constant) and t.comparators[0].value == 0 \
+                    and isinstance(t.left, ast.BinOp) and isinstance(t.left.op, ast.Sub):
+                guard = ("GDiff0", tr_expr(t.left.left, env), tr_expr(t.left.right, env))
+            elif isinstance(t, ast.Compare) and len(t.ops) == 1 and isinstance(t.ops[0], ast.GtE):
+                guard = ("GGe", tr_expr(t.left, env), tr_expr(t.comparators[0], env))
+            else:
+                raise Outside("early-return test %s" % ast.unparse(t))
+            continue
+        if isinstance(st, (ast.Assign, ast.AugAssign)):
+            tgt = st.targets[0] if isinstance(st, ast.Assign) else st.target
+            d = _dotted(tgt)
+            val = st.value
+            if isinstance(st, ast.Assign) and isinstance(val, ast.Call) and _dotted(val.func) == "slice" and d is not None \
+                    and len(val.args) == 3:
+                env["__slices__"][d] = tuple(tr_expr(a, env) for a in val.args)
+                continue
+            if d is not None:
+                try:
+                    _assign(st, env, tracked)
+                    continue
+                except Outside:
+                    # not arithmetic: fine unless it writes the tracked state or computes from it outside a data read
+                    if d in tracked or (_mentions(val, tracked | {k for k in env if not k.startswith("__")})
+                                        and not _mentions(val, set(env["__slices__"]))):
+                        raise
+        _field_reads(st, env, fields)
+        # anything else must not write the tracked state
+        for n in ast.walk(st):
+            if isinstance(n, (ast.Assign, ast.AugAssign)):
+                tg = n.targets[0] if isinstance(n, ast.Assign) else n.target
+                if _dotted(tg) in tracked:
+                    raise Outside("assignment to %s inside %s" % (_dotted(tg), type(st).__name__))
+    if "coordinates" not in fields:
+        raise Outside("coordinates are not read through a slice")
+    if guard is None:
+        raise Outside("no early return for an empty read")
+    a, b, c = fields["coordinates"]
+    same = all(fields.get(k) == fields["coordinates"] for k in FIELDS)
+    return {"start": a, "stop": b, "step": c, "guard": guard, "newpos": env["self._frame_index"], "same": same}
+
+
+def _assign(st, env, tracked):
+    if isinstance(st, ast.Assign) and len(st.targets) == 1:
+        d = _dotted(st.targets[0])
+        if d is None:
+            raise Outside("assignment target")
+        env[d] = tr_expr(st.value, env)
+    elif isinstance(st, ast.AugAssign):
+        d = _dotted(st.target)
+        if d is None or d not in env:
+            raise Outside("augmented assignment to %s" % d)
+        op = {ast.Add: "Add", ast.Mult: "Mul", ast.Sub: "Sub"}.get(type(st.op))
+        if op is None:
+            raise Outside("augmented operator")
+        v = tr_expr(st.value, env)
+        env[d] = (op, env[d], v) if op == "Sub" else _comm(op, env[d], v)
+    else:
+        raise Outside("statement %s where an assignment was expected" % type(st).__name__)
+
+
+def psterm(t):
+    g = t["guard"]
+    return "(mksterm %s %s %s (%s %s %s) %s %s)" % (pexpr(t["start"]), pexpr(t["stop"]), pexpr(t["step"]), g[0], pexpr(g[1]),
+                                                   pexpr(g[2]), pexpr(t["newpos"]), "true" if t["same"] else "false")
+
+
+# ---- loop readers ----------------------------------------------------------------------------------
+def _is_frame_call(n, meth):
+    return isinstance(n, ast.Call) and _dotted(n.func) == "self." + meth
+
+
+def _handler_breaks(tr):
+    if len(tr.handlers) != 1 or tr.orelse or tr.finalbody:
+        raise Outside("try with several handlers / else / finally")
+    h = tr.handlers[0]
+    if len(h.body) == 1 and isinstance(h.body[0], ast.Break):
+        return True
+    raise Outside("EOF handler that does not break")
+
+
+def _skip_loop(st, meth, in_keep_try):
+    """for j in range(E): [try: self._read() except: break | self._read()]  ->  (E node, skip_eof)"""
+    if not (isinstance(st.iter, ast.Call) and _dotted(st.iter.func) == "range" and len(st.iter.args) == 1 and not st.orelse):
+        raise Outside("throw-away loop is not range(<expr>)")
+    if len(st.body) != 1:
+        raise Outside("throw-away loop body")
+    b = st.body[0]
+    if isinstance(b, ast.Try):
+        if not (len(b.body) == 1 and isinstance(b.body[0], ast.Expr) and _is_frame_call(b.body[0].value, meth)):
+            raise Outside("throw-away try body")
+        _handler_breaks(b)
+        return st.iter.args[0], "SBreakInner"
+    if isinstance(b, ast.Expr) and _is_frame_call(b.value, meth):
+        return st.iter.args[0], ("SBreakOuter" if in_keep_try else "SEscape")
+    raise Outside("throw-away loop body")
+
+
+def tr_loop_read(fn, meth):
+    body = _strip_doc(fn.body)
+    iters = None
+    loopvar = None
+    loop = None
+    post = []
+    for i, st in enumerate(body):
+        if isinstance(st, ast.If) and _is_none_test(st.test, "n_frames") and len(st.body) == 1 and len(st.orelse) == 1:
+            a, b = st.body[0], st.orelse[0]
+            if isinstance(a, ast.Assign) and isinstance(b, ast.Assign) and _dotted(a.targets[0]) == _dotted(b.targets[0]) \
+                    and isinstance(a.value, ast.Call) and _dotted(a.value.func) == "itertools.count" \
+                    and isinstance(b.value, ast.Call) and _dotted(b.value.func) == "range" and len(b.value.args) == 1:
+                loopvar = _dotted(a.targets[0])
+                iters = tr_expr(b.value.args[0], {"n_frames": ("Vn",), "stride": ("Vs",)})
+                continue
+            raise Outside("frame counter")
+        if isinstance(st, ast.For) and loopvar is not None and _dotted(st.iter) == loopvar:
+            loop = st
+            post = body[i + 1:]
+            break
+        if isinstance(st, ast.If) and _is_none_test(st.test, "stride"):
+            if not (len(st.body) == 1 and isinstance(st.body[0], ast.Assign) and isinstance(st.body[0].value, ast.Constant)
+                    and st.body[0].value.value == 1 and not st.orelse):
+                raise Outside("stride default")
+            continue
+        if _mentions(st, {"n_frames", "stride"}) or any(_is_frame_call(n, meth) for n in ast.walk(st)):
+            raise Outside("statement before the loop uses n_frames/stride: %s" % ast.unparse(st)[:60])
+    if loop is None or iters is None:
+        raise Outside("no loop over the frame counter")
+    keep_eof = None
+    skip = None
+    skip_eof = None
+    kept = 0
+    env = {"stride": ("Vs",), "n_frames": ("Vn",)}
+    for st in loop.body:
+        if isinstance(st, ast.Try) and any(_is_frame_call(n, meth) for n in ast.walk(ast.Module(body=st.body, type_ignores=[]))):
+            _handler_breaks(st)
+            first = st.body[0]
+            if not (isinstance(first, ast.Assign) and _is_frame_call(first.value, meth)):
+                raise Outside("kept frame is not the first statement of the try")
+            kept += 1
+            keep_eof = "KBreak"
+            for inner in st.body[1:]:
+                if isinstance(inner, ast.For):
+                    if skip is not None:
+                        raise Outside("two throw-away loops")
+                    e, skip_eof = _skip_loop(inner, meth, True)
+                    skip = tr_expr(e, env)
+                elif any(_is_frame_call(n, meth) for n in ast.walk(inner)) or any(isinstance(n, (ast.Break, ast.Continue)) for n in ast.walk(inner)):
+                    raise Outside("extra frame read / break inside the try")
+        elif isinstance(st, ast.Assign) and _is_frame_call(st.value, meth):
+            kept += 1
+            keep_eof = "KEscape"
+        elif isinstance(st, ast.For):
+            if skip is not None:
+                raise Outside("two throw-away loops")
+            e, skip_eof = _skip_loop(st, meth, False)
+            skip = tr_expr(e, env)
+        elif any(_is_frame_call(n, meth) for n in ast.walk(st)) or any(isinstance(n, (ast.Break, ast.Continue)) for n in ast.walk(st)):
+            raise Outside("unrecognised statement in the frame loop: %s" % ast.unparse(st)[:60])
+    if kept != 1:
+        raise Outside("%d kept frames per iteration" % kept)
+    if skip is None:
+        skip, skip_eof = ("Cst", 0), "SBreakInner"
+    post_step = None
+    for st in post:
+        for n in ast.walk(st):
+            if isinstance(n, ast.Slice) and n.step is not None:
+                post_step = tr_expr(n.step, env)
+        if any(_is_frame_call(n, meth) for n in ast.walk(st)):
+            raise Outside("frame read after the loop")
+    return {"iters": iters, "skip": skip, "keep_eof": keep_eof, "skip_eof": skip_eof, "post": post_step}
+
+
+def plterm(t):
+    return "(mklterm %s %s %s %s %s)" % (pexpr(t["iters"]), pexpr(t["skip"]), t["keep_eof"], t["skip_eof"],
+                                        "None" if t["post"] is None else "(Some %s)" % pexpr(t["post"]))
+
+
+# ---- read_as_traj, seek, tell, time ----------------------------------------------------------------
+def _kw_passed(call, name, pos=None):
+    for k in call.keywords:
+        if k.arg == name:
+            return isinstance(k.value, ast.Name) and k.value.id == name
+    return False
+
+
+def tr_read_as_traj(fn, frame_meth_fn):
+    body = _strip_doc(fn.body)
+    call = None
+    call_idx = None
+    for i, st in enumerate(body):
+        for n in ast.walk(st):
+            if isinstance(n, ast.Call) and _dotted(n.func) == "self.read":
+                if call is not None:
+                    raise Outside("two calls of self.read")
+                call, call_idx = n, i
+    if call is None:
+        raise Outside("read_as_traj does not call self.read")
+    reassigned = set()
+    for st in body[:call_idx]:
+        for n in ast.walk(st):
+            if isinstance(n, (ast.Assign, ast.AugAssign)):
+                tg = n.targets[0] if isinstance(n, ast.Assign) else n.target
+                if _dotted(tg) in ("n_frames", "stride", "atom_indices"):
+                    reassigned.add(_dotted(tg))
+    p = {k: (_kw_passed(call, k) and k not in reassigned) for k in ("n_frames", "stride", "atom_indices")}
+    subset = False
+    for st in body:
+        if isinstance(st, ast.If) and _mentions(st.test, {"atom_indices"}):
+            for n in ast.walk(ast.Module(body=st.body, type_ignores=[])):
+                if isinstance(n, ast.Assign) and _dotted(n.targets[0]) == "topology" and isinstance(n.value, ast.Call) \
+                        and (_dotted(n.value.func) or "").endswith("topology.subset") and n.value.args \
+                        and _dotted(n.value.args[0]) == "atom_indices":
+                    subset = True
+    # time
+    synth = any(isinstance(n, ast.Call) and (_dotted(n.func) or "").endswith("arange") for n in ast.walk(fn))
+    if not synth:
+        tt = "TStored"
+    else:
+        init_idx = None
+        for i, st in enumerate(body):
+            if isinstance(st, ast.Assign) and _dotted(st.targets[0]) == "initial":
+                v = st.value
+                if isinstance(v, ast.Call) and _dotted(v.func) == "int":
+                    v = v.args[0]
+                if _dotted(v) == "self._frame_index":
+                    init_idx = i
+        before = init_idx is not None and init_idx < call_idx
+        formula = False
+        for st in body:
+            if isinstance(st, ast.Assign) and _dotted(st.targets[0]) == "time":
+                v = st.value
+                if isinstance(v, ast.BinOp) and isinstance(v.op, ast.Add):
+                    parts = [v.left, v.right]
+                    ini = [x for x in parts if _dotted(x) == "initial"]
+                    mul = [x for x in parts if isinstance(x, ast.BinOp) and isinstance(x.op, ast.Mult)]
+                    if len(ini) == 1 and len(mul) == 1:
+                        ms = [mul[0].left, mul[0].right]
+                        has_s = any(_dotted(x) == "stride" for x in ms)
+                        has_ar = any(isinstance(x, ast.Call) and (_dotted(x.func) or "").endswith("arange") and len(x.args) == 1
+                                     and isinstance(x.args[0], ast.Call) and _dotted(x.args[0].func) == "len" for x in ms)
+                        formula = has_s and has_ar
+        incr = False
+        if frame_meth_fn is not None:
+            assigns = [n for n in ast.walk(frame_meth_fn) if isinstance(n, (ast.Assign, ast.AugAssign))
+                       and _dotted(n.targets[0] if isinstance(n, ast.Assign) else n.target) == "self._frame_index"]
+            incr = (len(assigns) == 1 and isinstance(assigns[0], ast.AugAssign) and isinstance(assigns[0].op, ast.Add)
+                    and isinstance(assigns[0].value, ast.Constant) and assigns[0].value.value == 1)
+        tt = "(TSynth %s %s %s)" % tuple("true" if x else "false" for x in (before, formula, incr))
+    return "(mkpterm %s %s %s %s)" % tuple("true" if x else "false" for x in (p["n_frames"], p["stride"], p["atom_indices"], subset)), tt
+
+
+def tr_seek(fn, meth):
+    body = _strip_doc(fn.body)
+    if len(body) == 1 and isinstance(body[0], ast.Raise):
+        return "KRaises"
+    src = ast.unparse(fn)
+    # whence == 0 and offset >= 0: self._frame_index = offset
+    for n in ast.walk(fn):
+        if isinstance(n, ast.If) and "whence == 0" in ast.unparse(n.test) and "offset >= 0" in ast.unparse(n.test):
+            if len(n.body) == 1 and isinstance(n.body[0], ast.Assign) and _dotted(n.body[0].targets[0]) == "self._frame_index" \
+                    and _dotted(n.body[0].value) == "offset":
+                return "KAssign"
+            if len(n.body) == 1 and isinstance(n.body[0], ast.If):
+                i2 = n.body[0]
+                ok = (ast.unparse(i2.test) == "offset >= self._frame_index" and len(i2.body) == 1 and len(i2.orelse) == 1
+                      and ast.unparse(i2.body[0]) == "advance = offset - self._frame_index"
+                      and ast.unparse(i2.orelse[0]) == "absolute = offset")
+                if not ok:
+                    raise Outside("seek: advance / absolute computation")
+                adv = abs_ = False
+                for m in ast.walk(fn):
+                    if isinstance(m, ast.If) and ast.unparse(m.test) == "advance is not None":
+                        adv = (len(m.body) == 1 and isinstance(m.body[0], ast.For) and ast.unparse(m.body[0].iter) == "range(advance)"
+                               and len(m.body[0].body) == 1 and isinstance(m.body[0].body[0], ast.Expr)
+                               and _is_frame_call(m.body[0].body[0].value, meth))
+                        for o in m.orelse:
+                            if isinstance(o, ast.If) and ast.unparse(o.test) == "absolute is not None":
+                                resets = any(ast.unparse(x) == "self._frame_index = 0" for x in o.body)
+                                loops = [x for x in o.body if isinstance(x, ast.For)]
+                                abs_ = (resets and len(loops) == 1 and ast.unparse(loops[0].iter) == "range(absolute)"
+                                        and len(loops[0].body) == 1 and isinstance(loops[0].body[0], ast.Expr)
+                                        and _is_frame_call(loops[0].body[0].value, meth))
+                if adv and abs_:
+                    return "KByReading"
+                raise Outside("seek: reading loops")
+    raise Outside("seek: unrecognised shape (%d chars)" % len(src))
+
+
+def tr_tell(fn):
+    body = _strip_doc(fn.body)
+    if len(body) == 1 and isinstance(body[0], ast.Return):
+        v = body[0].value
+        if isinstance(v, ast.Call) and _dotted(v.func) == "int":
+            v = v.args[0]
+        return _dotted(v) == "self._frame_index"
+    return False
+
+
+def tr_loader(fn):
+    w = [st for st in fn.body if isinstance(st, ast.With)]
+    if len(w) != 1:
+        raise Outside("loader without a single with-block")
+    ifs = [st for st in w[0].body if isinstance(st, ast.If) and _is_notnone_test(st.test, "frame")]
+    rets = [st for st in w[0].body if isinstance(st, ast.Return)]
+    if len(ifs) != 1 or len(rets) != 1:
+        raise Outside("loader: frame test / return")
+    i = ifs[0]
+    bsrc = [ast.unparse(x) for x in i.body]
+    osrc = [ast.unparse(x) for x in i.orelse]
+    seek = "f.seek(frame)" in bsrc
+    n1 = "n_frames = 1" in bsrc
+    nn = osrc == ["n_frames = None"]
+    call = rets[0].value
+    if not (isinstance(call, ast.Call) and _dotted(call.func) == "f.read_as_traj"):
+        raise Outside("loader does not return f.read_as_traj(...)")
+    if not _kw_passed(call, "n_frames"):
+        n1 = nn = False
+    return "(mkdterm %s %s %s %s %s)" % tuple("true" if x else "false" for x in
+                                             (seek, n1, nn, _kw_passed(call, "stride"), _kw_passed(call, "atom_indices")))
+
+
+# ---- glue: iterload, load ---------------------------------------------------------------------------
+def _skip_stride_slice(sub):
+    s = sub.slice
+    return (isinstance(s, ast.Slice) and _dotted(s.lower) == "skip" and s.upper is None and _dotted(s.step) == "stride")
+
+
+def tr_iterload(fn):
+    body = _strip_doc(fn.body)
+    pops = {}
+    for st in body:
+        if isinstance(st, ast.Assign):
+            m = re.match(r"^(?:cast_indices\()?kwargs\.pop\('(\w+)', (.+?)\)\)?$", ast.unparse(st.value))
+            if m:
+                pops[_dotted(st.targets[0])] = (m.group(1), m.group(2))
+    if pops.get("stride") != ("stride", "1") or pops.get("skip") != ("skip", "0") or pops.get("atom_indices", ("", ""))[0] != "atom_indices":
+        raise Outside("iterload: stride/skip/atom_indices are not popped from kwargs with defaults 1/0/None")
+    chain = [st for st in body if isinstance(st, ast.If) and ast.unparse(st.test) == "chunk == 0"]
+    if len(chain) != 1:
+        raise Outside("iterload: no `if chunk == 0` chain")
+    c0 = chain[0]
+    # chunk == 0
+    ys = [n for n in ast.walk(ast.Module(body=c0.body, type_ignores=[])) if isinstance(n, ast.Yield)]
+    if len(ys) != 1 or not isinstance(ys[0].value, ast.Subscript) or not isinstance(ys[0].value.value, ast.Call) \
+            or _dotted(ys[0].value.value.func) != "load":
+        raise Outside("iterload: chunk == 0 branch")
+    g0_ai = _kw_passed(ys[0].value.value, "atom_indices")
+    g0_sl = _skip_stride_slice(ys[0].value)
+    # .pdb branch
+    if len(c0.orelse) != 1 or not isinstance(c0.orelse[0], ast.If) or ".pdb" not in ast.unparse(c0.orelse[0].test):
+        raise Outside("iterload: .pdb branch")
+    pb = c0.orelse[0]
+    gp_ai = gp_sl = gp_ch = False
+    tname = None
+    for st in pb.body:
+        if isinstance(st, ast.Assign) and isinstance(st.value, ast.Subscript) and isinstance(st.value.value, ast.Call) \
+                and _dotted(st.value.value.func) == "load":
+            tname = _dotted(st.targets[0])
+            gp_ai = _kw_passed(st.value.value, "atom_indices") and not any(k.arg in ("stride",) for k in st.value.value.keywords)
+            gp_sl = _skip_stride_slice(st.value)
+        elif isinstance(st, ast.Assign) and isinstance(st.value, ast.Call) and _dotted(st.value.func) == "load":
+            tname = _dotted(st.targets[0])       # as found: load(filename, stride=stride, atom_indices=atom_indices), no slice
+            gp_ai = _kw_passed(st.value, "atom_indices")
+        elif isinstance(st, ast.For) and tname is not None:
+            gp_ch = (ast.unparse(st.iter) == "range(0, len(%s), chunk)" % tname and len(st.body) == 1
+                     and ast.unparse(st.body[0]) == "yield %s[i:i + chunk]" % tname and ast.unparse(st.target) == "i")
+    # the chunked branch: last else of the chain
+    cur = pb
+    while len(cur.orelse) == 1 and isinstance(cur.orelse[0], ast.If):
+        cur = cur.orelse[0]
+    gen = cur.orelse
+    withs = [st for st in gen if isinstance(st, ast.With)]
+    if len(withs) != 1:
+        raise Outside("iterload: chunked branch is not one with-block")
+    wb = withs[0].body
+    fname = _dotted(withs[0].items[0].optional_vars)
+    guard, arg_skip = "CAlways", False
+    seen_seek = False
+    loopst = None
+    for st in wb:
+        if isinstance(st, ast.If) and any(isinstance(n, ast.Call) and _dotted(n.func) == fname + ".seek" for n in ast.walk(st)):
+            t = ast.unparse(st.test)
+            guard = {"skip > 0": "CGt0", "skip >= 0": "CGe0", "skip > 1": "CGt1", "skip != 0": "CGt0", "skip": "CGt0"}.get(t)
+            if guard is None:
+                raise Outside("iterload: seek guard %s" % t)
+            if not (len(st.body) == 1 and not st.orelse):
+                raise Outside("iterload: seek branch")
+            arg_skip = ast.unparse(st.body[0]) == "%s.seek(skip)" % fname
+            seen_seek = True
+        elif isinstance(st, ast.Expr) and isinstance(st.value, ast.Call) and _dotted(st.value.func) == fname + ".seek":
+            arg_skip = ast.unparse(st) == "%s.seek(skip)" % fname
+            seen_seek = True
+        elif isinstance(st, ast.While):
+            if loopst is not None or ast.unparse(st.test) != "True":
+                raise Outside("iterload: loop")
+            if not seen_seek:
+                guard, arg_skip = "CGt1", False       # a loop that never seeks: cannot honour skip
+            loopst = st
+        elif any(isinstance(n, ast.Call) and (_dotted(n.func) or "").startswith(fname + ".") for n in ast.walk(st)):
+            raise Outside("iterload: extra call on the file object")
+    if loopst is None:
+        raise Outside("iterload: no while True loop")
+    calls = [n for n in ast.walk(loopst) if isinstance(n, ast.Call) and _dotted(n.func) == fname + ".read_as_traj"]
+    if not calls:
+        raise Outside("iterload: loop does not call read_as_traj")
+
+    def kwv(c, k):
+        for kw in c.keywords:
+            if kw.arg == k:
+                return _dotted(kw.value)
+        return None
+    rn = all(kwv(c, "n_frames") == "chunk" for c in calls)
+    rs = all(kwv(c, "stride") == "stride" for c in calls)
+    ra = all(kwv(c, "atom_indices") == "atom_indices" for c in calls)
+    stop, before = None, False
+    seen_stop = False
+    for st in loopst.body:
+        if isinstance(st, ast.If) and len(st.body) == 1 and isinstance(st.body[0], (ast.Return, ast.Break)) and not st.orelse:
+            t = ast.unparse(st.test)
+            stop = {"len(traj) == 0": "StopLen0", "len(traj) < chunk": "StopLtChunk", "not len(traj)": "StopLen0"}.get(t)
+            if stop is None:
+                raise Outside("iterload: stop test %s" % t)
+            seen_stop = True
+        elif isinstance(st, ast.Expr) and isinstance(st.value, ast.Yield):
+            before = seen_stop
+    if stop is None:
+        raise Outside("iterload: no stop test")
+    b = lambda x: "true" if x else "false"   # noqa: E731
+    return "(mkgterm %s %s %s %s %s %s %s %s %s %s %s %s)" % (guard, b(arg_skip), b(rn), b(rs), b(ra), stop, b(before),
+                                                            b(g0_ai), b(g0_sl), b(gp_ai), b(gp_sl), b(gp_ch))
+
+
+def tr_load_multi(fn):
+    """md.load: the first file and every later file go through loader(f, **kwargs) with the SAME kwargs
+    (no pop/assignment of stride / atom_indices / frame in between), collected in order, joined"""
+    src_lines = [ast.unparse(st) for st in fn.body]
+    first = None
+    loop = None
+    for st in ast.walk(fn):
+        if isinstance(st, ast.For) and ast.unparse(st.iter) == "filename_or_filenames":
+            calls = [n for n in ast.walk(st) if isinstance(n, ast.Call) and _dotted(n.func) == "loader"]
+            if calls:
+                loop = st
+    if loop is None:
+        raise Outside("load: no loop over the remaining files")
+    lsrc = [ast.unparse(x) for x in loop.body]
+    same = "t = loader(f, **kwargs)" in lsrc
+    order = "trajectories.append(t)" in lsrc
+    # kwargs must not lose stride/atom_indices/frame between the first loader call and the loop
+    text = ast.unparse(fn)
+    i0 = text.find("t = loader(tmp_file, **kwargs)")
+    i1 = text.find("for f in filename_or_filenames")
+    if i0 < 0 or i1 < 0:
+        raise Outside("load: first loader call")
+    mid = text[i0:i1]
+    for bad in ("kwargs.pop('stride'", "kwargs.pop('atom_indices'", "kwargs.pop('frame'", "kwargs['stride']", "kwargs['atom_indices']",
+                'kwargs.pop("stride"', "del kwargs"):
+        if bad in mid:
+            same = False
+    j = text[i1:]
+    if re.search(r"kwargs\.pop\('(stride|atom_indices|frame)'", j.split("\n")[1] if "\n" in j else ""):
+        same = False
+    pre = text[i1 - 200:i1]
+    if re.search(r"kwargs\.pop\('(stride|atom_indices|frame)'", pre):
+        same = False
+    join = bool(re.search(r"return join\(\s*trajectories", text))
+    b = lambda x: "true" if x else "false"   # noqa: E731
+    return "(mkmterm %s %s %s)" % (b(same), b(order), b(join))
+
+
+def build_gen(repo=None):
+    info = {"translated": [], "degraded": {}}
+    lines = ["(* GENERATED by harness/props/C02.py from the mdtraj sources on every run. Do not edit. *)",
+             "From Coq Require Import List Bool.", "Import ListNotations.",
+             "Require Import MD.Load.Model MD.Load.Reflect MD.Load.Reference.", ""]
+    for key, rel, cls, meth, loader, kind, fams in READERS:
+        try:
+            tree = ast.parse(_src(rel))
+            rd = _method(tree, cls, "read")
+            body = ("(BSlice %s)" % psterm(tr_slice_read(rd))) if kind == "slice" else ("(BLoop %s)" % plterm(tr_loop_read(rd, meth)))
+            fm = _method(tree, cls, meth) if meth else None
+            pt, tt = tr_read_as_traj(_method(tree, cls, "read_as_traj"), fm)
+            sk = tr_seek(_method(tree, cls, "seek"), meth or "_read")
+            tl = tr_tell(_method(tree, cls, "tell"))
+            lines.append("Definition %s_reader : rterm :=\n  mkrterm %s\n    %s %s %s %s." % (key, body, pt, sk, "true" if tl else "false", tt))
+            info["translated"].append(key + "_reader")
+        except (Outside, SyntaxError, OSError) as e:
+            info["degraded"][key + "_reader"] = str(e)
+            lines.append("Definition %s_reader : rterm := Reference.%s_reader.  (* degraded: %s *)" % (key, key, str(e).replace("*", "x")[:120]))
+        try:
+            tree = ast.parse(_src(rel))
+            lines.append("Definition %s_loader : dterm := %s." % (key, tr_loader(_function(tree, loader))))
+            info["translated"].append(key + "_loader")
+        except (Outside, SyntaxError, OSError) as e:
+            info["degraded"][key + "_loader"] = str(e)
+            lines.append("Definition %s_loader : dterm := Reference.%s_loader.  (* degraded: %s *)" % (key, key, str(e).replace("*", "x")[:120]))
+        ok = "[%s]" % "; ".join(fams)
+        lines.append("Lemma %s_reader_ok : classified_in %s_reader %s = true.\nProof. vm_compute. reflexivity. Qed." % (key, key, ok))
+        lines.append("Lemma %s_time_ok : check_time %s_reader = true.\nProof. vm_compute. reflexivity. Qed." % (key, key))
+        lines.append("Lemma %s_loader_ok : check_loader %s_loader = true.\nProof. vm_compute. reflexivity. Qed." % (key, key))
+        lines.append("")
+    try:
+        tree = ast.parse(_src("mdtraj/core/trajectory.py"))
+        lines.append("Definition iterload_glue : gterm :=\n  %s." % tr_iterload(_function(tree, "iterload")))
+        info["translated"].append("iterload_glue")
+    except (Outside, SyntaxError, OSError) as e:
+        info["degraded"]["iterload_glue"] = str(e)
+        lines.append("Definition iterload_glue : gterm := Reference.iterload_glue.  (* degraded: %s *)" % str(e).replace("*", "x")[:120])
+    try:
+        tree = ast.parse(_src("mdtraj/core/trajectory.py"))
+        lines.append("Definition load_multi : mterm := %s." % tr_load_multi(_function(tree, "load")))
+        info["translated"].append("load_multi")
+    except (Outside, SyntaxError, OSError) as e:
+        info["degraded"]["load_multi"] = str(e)
+        lines.append("Definition load_multi : mterm := Reference.load_multi.  (* degraded: %s *)" % str(e).replace("*", "x")[:120])
+    lines += ["Lemma iterload_glue_ok : check_glue iterload_glue = true.\nProof. vm_compute. reflexivity. Qed.",
+              "Lemma iterload_chunk0_ok : check_glue0 iterload_glue = true.\nProof. vm_compute. reflexivity. Qed.",
+              "Lemma iterload_pdb_ok : check_gluepdb iterload_glue = true.\nProof. vm_compute. reflexivity. Qed.",
+              "Lemma load_multi_ok : check_multi load_multi = true.\nProof. vm_compute. reflexivity. Qed.", ""]
+    return "\n".join(lines), info
+
+
+def translate(ctx):
+    text, info = build_gen()
+    ctx.write_gen("Gen/LoadReaders.v", text)
+    ctx.notes.setdefault("coverage_extra", {})["translator"] = {
+        "translated": info["translated"], "degraded": info["degraded"],
+        "reflection_lemmas_in_Gen": len(re.findall(r"^Lemma ", text, re.M))}
+    if info["degraded"]:
+        ctx.notes["translator"] = "degraded: %s" % info["degraded"]
+        ctx.log("translator degraded for", info["degraded"])
